@@ -9,6 +9,7 @@ import (
 	"sort"
 	"strings"
 	"sync"
+	"sync/atomic"
 	"testing"
 	"time"
 
@@ -515,6 +516,126 @@ func TestChannel(t *testing.T) {
 				rt.Fatalf("%v", err)
 			}
 			r.Fail(rt, "TestChannel", cases[idx], "%v", err)
+		}
+	})
+}
+
+// ---- a steady trickle: events keep arriving less than one flush interval apart ----
+
+type trickleCase struct {
+	Max   int64 `json:"max"`
+	GapMs int   `json:"gap_ms"` // pause between two events (the flush interval is 1000 ms)
+	Pad   int   `json:"pad"`
+}
+
+// checkTrickle sends events GapMs apart and, while they keep coming, looks for event 0 in the
+// log. The statement promises it "once the flush interval has passed"; the harness looks after
+// 5 flush intervals and, before calling it a violation, again after 20.
+func checkTrickle(dir string, cases []trickleCase) (int, error) {
+	type inst struct {
+		ch   pushers.Channel
+		path string
+	}
+	insts := make([]inst, len(cases))
+	for i, c := range cases {
+		d := filepath.Join(dir, fmt.Sprintf("t%d", i))
+		os.MkdirAll(d, 0755)
+		p := filepath.Join(d, "events.log")
+		mx := c.Max
+		ch, err := filech.New(func(pc pushers.Channel) error {
+			fb := pc.(*filech.FileBackend)
+			fb.File = p
+			fb.MaxSize = mx
+			return nil
+		})
+		if err != nil {
+			return i, fmt.Errorf("infra: %v", err)
+		}
+		insts[i] = inst{ch, p}
+	}
+	stop := make(chan struct{})
+	var wg sync.WaitGroup
+	sent := make([]int64, len(cases))
+	for i, c := range cases {
+		wg.Add(1)
+		go func(i int, c trickleCase) {
+			defer wg.Done()
+			for j := 0; ; j++ {
+				e := event.New(event.Category("c07"), event.Custom("id", j), event.Custom("p", strings.Repeat("y", c.Pad)))
+				insts[i].ch.Send(e)
+				atomic.StoreInt64(&sent[i], int64(j+1))
+				select {
+				case <-stop:
+					return
+				case <-time.After(time.Duration(c.GapMs) * time.Millisecond):
+				}
+			}
+		}(i, c)
+	}
+	defer func() { close(stop); wg.Wait() }()
+	missing := func() []int {
+		var m []int
+		for i, c := range cases {
+			ids, _, _ := scanEvents(insts[i].path, c.Max)
+			if ids[0] < 1 {
+				m = append(m, i)
+			}
+		}
+		return m
+	}
+	time.Sleep(5 * time.Second)
+	m := missing()
+	if len(m) == 0 {
+		return -1, nil
+	}
+	time.Sleep(15 * time.Second)
+	m = missing()
+	if len(m) == 0 {
+		return -1, nil
+	}
+	i := m[0]
+	ids, desc, _ := scanEvents(insts[i].path, cases[i].Max)
+	return i, fmt.Errorf("event 0 was accepted 20 s ago (flush interval 1 s) and is in no log file while %d later events arrived %d ms apart; lines on disk: %d; files=%v", atomic.LoadInt64(&sent[i])-1, cases[i].GapMs, len(ids), desc)
+}
+
+func TestTrickle(t *testing.T) {
+	r := vlib.Open(prop)
+	dir, _ := os.MkdirTemp("", "c07t")
+	defer os.RemoveAll(dir)
+	var tc trickleCase
+	if vlib.ReplayCase("TestTrickle", &tc) {
+		if _, err := checkTrickle(filepath.Join(dir, "r"), []trickleCase{tc}); err != nil {
+			r.Violation(t, "TestTrickle", tc, err.Error())
+		}
+		return
+	}
+	r.Rule("steady trickle: one event every 20..2500 ms for 5 s (20 s before a verdict); the first event must be on disk while later ones keep arriving; non-trivial = gap shorter than the 1 s flush interval")
+	per := r.Pick(40, 120)
+	bi := 0
+	r.Rapid(t, "TestTrickle", r.Pick(1, 4), func(rt *rapid.T) {
+		bi++
+		var cases []trickleCase
+		for i := 0; i < per; i++ {
+			c := trickleCase{
+				Max:   int64(rapid.SampledFrom([]int{1024, 4096, 1 << 20}).Draw(rt, "max")),
+				GapMs: rapid.OneOf(rapid.IntRange(20, 999), rapid.SampledFrom([]int{500, 900, 990, 1000, 1010, 1500, 2500})).Draw(rt, "gap"),
+				Pad:   rapid.IntRange(0, 300).Draw(rt, "pad"),
+			}
+			fp := ""
+			if c.GapMs < 1000 {
+				fp = vlib.JSON(c)
+			}
+			r.Case(fmt.Sprintf("trickle/max=%d/gap<1s=%v", c.Max, c.GapMs < 1000), fp, func() interface{} { return c })
+			cases = append(cases, c)
+		}
+		sub := filepath.Join(dir, fmt.Sprintf("b%d", bi))
+		idx, err := checkTrickle(sub, cases)
+		os.RemoveAll(sub)
+		if err != nil {
+			if strings.HasPrefix(err.Error(), "infra:") {
+				rt.Fatalf("%v", err)
+			}
+			r.Fail(rt, "TestTrickle", cases[idx], "%v", err)
 		}
 	})
 }
